@@ -245,6 +245,11 @@ func (r *runner) step(w *world.World, n *Node, op world.Op, seed int, cnt *Count
 		next.snap = n.snap
 	}
 	x := &Exec{W: w, Prev: n, Op: op, Res: res, Next: next, Cnt: cnt}
+	if !res.Rejected && check {
+		if qp := next.Snap().QueryPanic; qp != "" && n.Snap().QueryPanic == "" {
+			r.record(Failure{Oracle: "module-query-panic", Cause: "", Msg: "after " + op.String() + " the module's own balance function panics: " + qp}, seed, next.Trace)
+		}
+	}
 	if r.sc.Step != nil {
 		fails := r.sc.Step(x)
 		if check {
@@ -539,8 +544,13 @@ func Replay(sc *Scenario, w *world.World, seed int, ops []world.Op, verbose bool
 		}
 		x := &Exec{W: w, Prev: n, Op: op, Res: res, Next: next, Cnt: cnt}
 		var fails []Failure
+		if !res.Rejected {
+			if qp := next.Snap().QueryPanic; qp != "" && n.Snap().QueryPanic == "" {
+				fails = append(fails, Failure{Oracle: "module-query-panic", Msg: "after " + op.String() + " the module's own balance function panics: " + qp})
+			}
+		}
 		if sc.Step != nil {
-			fails = sc.Step(x)
+			fails = append(fails, sc.Step(x)...)
 		}
 		if verbose {
 			fmt.Printf("  step %d %-40s err=%v rejected=%v\n", i+1, op.String(), res.Err, res.Rejected)
